@@ -115,6 +115,15 @@ class Utils:
             return c
 
     @staticmethod
+    def version_key(version: str) -> Tuple[int, ...]:
+        '''Converts a dot-separated version string (i.e.: "10.0" or "2020.81") into a tuple of integers, so that versions can be ordered numerically, component by component (as strings, "10.0" would sort before "9.9").'''
+        key = []
+        for component in version.split('.'):
+            mx = re.match(r'^\d+', component)
+            key.append(int(mx.group(0)) if mx is not None else 0)
+        return tuple(key)
+
+    @staticmethod
     def parse_int(v: Any) -> int:
         try:
             return int(v)
